@@ -59,6 +59,13 @@ claimed.update({
                 note="Outside: idempotent re-injection and container preservation (template/YAML/JSON-patch machinery).", ref="§4 C19"),
 })
 
+claimed.update({
+    "C20": dict(text="The real IptablesConfigurator.Run + rule builder are executed for every configuration of a menu; the resulting rule vectors are evaluated by a reference netfilter interpreter on a fully symbolic IPv4 packet "
+                     "(protocol, 32-bit addresses, port, interfaces, owner uid/gid) and compared with the capture policy of the statement: no redirect loop for proxy-owned traffic, application outbound TCP captured iff included and not excluded "
+                     "(ranges, ports, interfaces, loopback), inbound TCP captured iff port included/not excluded/not the tunnel port, app loopback traffic left alone.",
+                note="Outside: TPROXY/mangle, DNS capture, IPv6 parity (unless listed in the evidence), nftables, CNI in-pod rules, conntrack state, kernel semantics beyond the modelled matches.", ref="§4 C20"),
+})
+
 na = {
 }
 
